@@ -878,6 +878,43 @@ fn apply_aws_defaults(options: MqttClientOptions) -> MqttClientOptions {
     }
 }
 
+/// Verification hooks: read-only access to what the builders compute.
+#[cfg(feature = "verif")]
+impl AwsClientBuilder {
+    /// The connect options a client built from this builder would use, given the user's connect options.
+    pub fn verif_final_connect_options(&self) -> ConnectOptions {
+        let user_connect_options =
+            if let Some(options) = &self.connect_options {
+                options.clone()
+            } else {
+                ConnectOptions::builder().build()
+            };
+
+        self.build_final_connect_options(user_connect_options)
+    }
+
+    /// The client options a client built from this builder would use.
+    pub fn verif_final_client_options(&self) -> MqttClientOptions {
+        let client_options =
+            if let Some(options) = &self.client_options {
+                options.clone()
+            } else {
+                MqttClientOptions::builder().build()
+            };
+
+        apply_aws_defaults(client_options)
+    }
+}
+
+#[cfg(feature = "verif")]
+impl AwsCustomAuthOptions {
+    /// Final CONNECT username computed by the custom auth builder
+    pub fn verif_username(&self) -> &str { self.username.as_str() }
+
+    /// Final CONNECT password computed by the custom auth builder
+    pub fn verif_password(&self) -> Option<&[u8]> { self.password.as_deref() }
+}
+
 #[cfg(feature = "tokio-websockets")]
 async fn sign_websocket_upgrade_sigv4(request_builder: http::request::Builder, signing_region: String, credentials_provider: std::sync::Arc<dyn ProvideCredentials>) -> GneissResult<http::request::Builder> {
     let credentials = credentials_provider.provide_credentials().await.map_err(|e| { GneissError::new_other_error(e) })?;
